@@ -1,9 +1,59 @@
-(* C18 property theorems (statements closed by [exact]); filled as the proofs land. *)
-From Tbfmm Require Import Base.Prelude Index.MortonDefs Tree.GroupDefs Tree.BuildDefs Exec.ExecDefs Exec.CounterDefs.
+(* C18 — interaction counters report the true number of elementary interactions.  Proofs in Exec/CounterProofs.v. *)
+From Tbfmm Require Import Base.Prelude Index.MortonDefs Tree.GroupDefs Tree.BuildDefs Tree.Invariant Exec.ExecDefs Exec.CounterDefs
+     Spec.Elem Spec.Corollaries Exec.CounterProofs.
+From Coq Require Import Sorting.Permutation.
 Local Open Scope Z_scope.
+
+(* the counters are a function of the multiset of elementary interactions only *)
+Theorem C18_count_trace_elementary : forall tr, count_trace tr = count_elems (elementary tr).
+Proof. exact count_trace_elementary. Qed.
+Print Assumptions C18_count_trace_elementary.
+Theorem C18_count_elems_perm : forall e e', Permutation e e' -> count_elems e = count_elems e'.
+Proof. exact count_elems_perm. Qed.
+Print Assumptions C18_count_elems_perm.
+
+(* per-worker copies: ANY partition of the calls over kernel copies, merged with Reduce in ANY order, gives the counters of the
+   whole run (thread count, schedule and merge order are irrelevant) *)
+Theorem C18_merge_any_partition : forall trs tr, Permutation (concat trs) tr -> merge_counters (map count_trace trs) = count_trace tr.
+Proof. exact merge_any_partition. Qed.
+Print Assumptions C18_merge_any_partition.
+Theorem C18_merge_any_order : forall ks ks', Permutation ks ks' -> merge_counters ks = merge_counters ks'.
+Proof. exact merge_any_order. Qed.
+Print Assumptions C18_merge_any_order.
+
+(* the counters of a full run are those implied by the tree alone: independent of block size, grouping mode *)
+Theorem C18_counts_spec : forall d per H B mode s t idx, (0 < d)%nat -> 1 <= H -> tree_ok (parent d) H B mode t -> particles_ok idx t ->
+  Forall (fun i => 0 <= i < 2 ^ ((H - 1) * dz d)) idx -> idx <> [] ->
+  count_trace (execute d per s 63 t) = count_elems (spec_all d per s H (leaf_table t)).
+Proof. exact counts_spec. Qed.
+Print Assumptions C18_counts_spec.
+Theorem C18_counts_grouping_independent : forall d per H B1 m1 B2 m2 s t1 t2 idx, (0 < d)%nat -> 1 <= H ->
+  tree_ok (parent d) H B1 m1 t1 -> tree_ok (parent d) H B2 m2 t2 -> particles_ok idx t1 -> particles_ok idx t2 ->
+  Forall (fun i => 0 <= i < 2 ^ ((H - 1) * dz d)) idx -> idx <> [] -> leaf_table t1 = leaf_table t2 ->
+  count_trace (execute d per s 63 t1) = count_trace (execute d per s 63 t2).
+Proof. exact counts_grouping_independent. Qed.
+Print Assumptions C18_counts_grouping_independent.
+
+(* explicit values: P2M = L2P = number of leaves; M2M = L2L = number of parent-child links at levels s'+1..H-1;
+   P2PInner = sum n(n-1) *)
+Theorem C18_counts_values : forall d per H B mode s t idx, (0 < d)%nat -> 1 <= H ->
+  tree_ok (parent d) H B mode t -> particles_ok idx t ->
+  Forall (fun i => 0 <= i < 2 ^ ((H - 1) * dz d)) idx -> idx <> [] ->
+  let k := count_trace (execute d per s 63 t) in let s' := Z.max 0 s in
+  c_p2m k = (if s' <? H then zlen (leaf_table t) else 0) /\ c_l2p k = c_p2m k /\ c_m2m k = c_l2l k /\
+  c_m2m k = zsum (map (fun l => zlen (cells_from d (Z.to_nat (H - 1 - (l + 1))) (map fst (leaf_table t)))) (zrange s' (H - 2))) /\
+  c_inner k = zsum (map (fun ip => zlen (snd ip) * zlen (snd ip) - zlen (snd ip)) (leaf_table t)).
+Proof. exact counts_values. Qed.
+Print Assumptions C18_counts_values.
+
+(* operators split over several kernel copies by flag masks partitioning the full set, in any order *)
+Theorem C18_counts_split_masks : forall d per s t masks,
+  (forall f, In f [1;2;4;8;16;32] -> exists! i, (i < length masks)%nat /\ has (nth i masks 0) f = true) ->
+  merge_counters (map (fun m => count_trace (execute d per s m t)) masks) = count_trace (execute d per s 63 t).
+Proof. exact counts_split_masks. Qed.
+Print Assumptions C18_counts_split_masks.
 
 Example C18_example :
   let t := build (parent 3) 4 3 false [5;5;63;0;9;12;9;300;301;511] in
   merge_counters [count_trace (execute 3 false 2 7 t); count_trace (execute 3 false 2 56 t)] = count_trace (execute 3 false 2 63 t).
 Proof. vm_compute. reflexivity. Qed.
-Print Assumptions C18_example.
